@@ -1,7 +1,7 @@
 (* Facts about the echo writer that the .p8 round trip (C03) needs: the yielded lines are never empty, the
    written text is a fixed point of lex + echo, and stays one when a final line feed is supplied. *)
 From PV Require Import Base.Prelude Generated.T_lexer Model.Lexer Model.EchoWriter Proofs.LexerProofs Proofs.LexerInv
-  Proofs.LexerSpec Proofs.LexerAgree Proofs.LexerChunk Proofs.EchoProofs.
+  Proofs.LexerSpec Proofs.LexerAgree Proofs.LexerChunk Proofs.EchoProofs Proofs.LexerRelex Proofs.LexerAppendLf.
 From Coq Require Import ZifyBool.
 
 (* ---------- (3) no token has an empty code, no yielded line is empty *)
@@ -94,3 +94,31 @@ Print Assumptions echo_chunks_nonempty.
 
 (* every yielded chunk except possibly the last ends with a line-break token's code; the last one does iff
    the last token is a newline token *)
+
+(* ---------- (1) the written text is a fixed point, (2) also with a final line feed supplied *)
+Lemma echo_source_one s : echo_source [s] = match model_lex [s] with Ok ts => Ok (echo ts) | Err e => Err e end.
+Proof. reflexivity. Qed.
+
+(* whatever the chunkings (split after line feeds) of the source and of the written text *)
+Theorem echo_idempotent ls lines : Forall ends_lf (removelast ls) -> echo_source ls = Ok lines ->
+  forall ls', concat ls' = concat lines -> Forall ends_lf (removelast ls') ->
+  exists lines', echo_source ls' = Ok lines' /\ concat lines' = concat lines.
+Proof.
+  intros HF H ls' Hc HF'. rewrite (echo_source_chunking ls HF) in H. rewrite (echo_source_chunking ls' HF'), Hc.
+  unfold echo_source in *. destruct (model_lex [concat ls]) as [ts|e] eqn:E; [|discriminate]. inversion H; subst lines.
+  rewrite echo_concat. destruct (relex_stable _ _ E) as (ts' & E' & Hcodes). rewrite E'.
+  exists (echo ts'). split; [reflexivity|]. rewrite echo_concat, Hcodes. reflexivity.
+Qed.
+Print Assumptions echo_idempotent.
+
+Theorem echo_idempotent_lf ls lines : Forall ends_lf (removelast ls) -> echo_source ls = Ok lines ->
+  forall ls', concat ls' = concat lines ++ [10] -> Forall ends_lf (removelast ls') ->
+  exists lines', echo_source ls' = Ok lines' /\ concat lines' = concat lines ++ [10].
+Proof.
+  intros HF H ls' Hc HF'. rewrite (echo_source_chunking ls HF) in H. rewrite (echo_source_chunking ls' HF'), Hc.
+  unfold echo_source in *. destruct (model_lex [concat ls]) as [ts|e] eqn:E; [|discriminate]. inversion H; subst lines.
+  rewrite echo_concat. destruct (relex_stable _ _ E) as (ts' & E' & Hcodes).
+  destruct (model_lex_append_lf _ _ E') as (ts'' & E'' & Hc'').
+  rewrite E''. exists (echo ts''). split; [reflexivity|]. rewrite echo_concat, Hc'', Hcodes. reflexivity.
+Qed.
+Print Assumptions echo_idempotent_lf.
